@@ -198,6 +198,7 @@ func TestC18(t *testing.T) {
 		}()
 	}
 
+	aborted := false
 	for i := 0; i < n; i++ {
 		if !r.Want(i) {
 			continue
@@ -208,10 +209,16 @@ func TestC18(t *testing.T) {
 		}
 		for rep := 0; rep < reps; rep++ {
 			before := r.Violated()
-			runHistory(r, i, rep, ag, jobs)
-			if r.Violated() > before {
+			aborted = runHistory(r, i, rep, ag, jobs)
+			if aborted || r.Violated() > before {
 				break
 			}
+		}
+		if aborted {
+			// goroutines of the hung history are abandoned inside fasthttp and would
+			// disturb the hooks and counters of every later history
+			r.Event("aborted_after_hang", 1)
+			break
 		}
 		if i%64 == 0 {
 			if g := runtime.NumGoroutine(); g > 3000 {
@@ -264,7 +271,8 @@ func checkLinearizable(r *mon.Run, j porcJob) {
 	}
 }
 
-func runHistory(r *mon.Run, i, rep int, ag *agg, jobs chan<- porcJob) {
+// runHistory executes and judges one history; it reports whether the history hung.
+func runHistory(r *mon.Run, i, rep int, ag *agg, jobs chan<- porcJob) (hung bool) {
 	rnd := r.Rand("cfg", i)
 	cfg, plans := genCfg(rnd)
 	base := time.Now()
@@ -326,7 +334,6 @@ func runHistory(r *mon.Run, i, rep int, ag *agg, jobs chan<- porcJob) {
 	}
 	done := make(chan struct{})
 	go func() { wg.Wait(); close(done) }()
-	hung := false
 	select {
 	case <-done:
 	case <-time.After(hangFirst):
@@ -426,9 +433,10 @@ func runHistory(r *mon.Run, i, rep int, ag *agg, jobs chan<- porcJob) {
 		jobs <- porcJob{idx: i, max: cfg.Max, cfg: cfg.String(), ops: h.ops}
 	}
 	if r.WantSample() && contention {
-		r.Sample(map[string]any{"case": i, "config": cfg.String(), "max_live": maxLive, "dials_ok": dOK, "dials_failed": dFail,
+		r.Sample(map[string]any{"case": i, "hung": hung, "config": cfg.String(), "max_live": maxLive, "dials_ok": dOK, "dials_failed": dFail,
 			"err_no_free_conns": h.seen.nofree.Load(), "idle_reuse": h.seen.idleReuse.Load(), "hook_hits": hits, "recorded_ops": len(h.ops)})
 	}
+	return hung
 }
 
 func firstOver(ev []overEvent, explained bool) overEvent {
